@@ -2783,9 +2783,22 @@ func (a *Agent) handlePeerDisconnect(conn *peer.Connection, err error) {
 }
 
 // cleanupRelaysForPeer removes all relay entries involving the specified peer.
+// This covers TCP streams as well as relayed UDP associations and ICMP
+// sessions: none of them can make progress once one of their two peers is gone,
+// and no UDP_CLOSE / ICMP_CLOSE will ever arrive to remove them.
 func (a *Agent) cleanupRelaysForPeer(peerID identity.AgentID) {
 	if cleaned := a.tcpRelay.DeleteByPeer(peerID); cleaned > 0 {
 		a.logger.Debug("cleaned up relay streams",
+			logging.KeyPeerID, peerID.ShortString(),
+			logging.KeyCount, cleaned)
+	}
+	if cleaned := a.udpRelay.DeleteByPeer(peerID); cleaned > 0 {
+		a.logger.Debug("cleaned up relay UDP associations",
+			logging.KeyPeerID, peerID.ShortString(),
+			logging.KeyCount, cleaned)
+	}
+	if cleaned := a.icmpRelay.DeleteByPeer(peerID); cleaned > 0 {
+		a.logger.Debug("cleaned up relay ICMP sessions",
 			logging.KeyPeerID, peerID.ShortString(),
 			logging.KeyCount, cleaned)
 	}
